@@ -904,9 +904,12 @@ def c11(chk, tier):
     duplicate; for a directive pasted from a macro also the PASTE line)."""
     import rel
     thorough = tier == "thorough"
-    fxs = load(tier, want_ok=True, limit=None if thorough else 200, salt=11, single_file=True)
+    fxs = load(tier, want_ok=True, limit=None, salt=11, single_file=True)
     rnd = random.Random(seed() * 31 + 11)
     cases, meta = [], {}
+    percls = {}
+    cap = 400 if thorough else 30          # per (fault, directive kind), over the whole corpus
+    rnd.shuffle(fxs)
     for n, fx in enumerate(fxs):
         d = fx.data
         if fx.nl is None or not d.endswith((b"\n", b"\r")):
@@ -975,7 +978,12 @@ def c11(chk, tier):
                 if nd["k"] in NAMED_DECL:
                     cands.append(("dup_name", nd["k"], d + d[st:en], [(st, en), (len(d), len(d) + en - st)], st))
         rnd.shuffle(cands)
-        for j, (fault, kw, data, sites, at) in enumerate(cands[:(12 if thorough else 4)]):
+        for j, (fault, kw, data, sites, at) in enumerate(cands):
+            inmacro = any(st <= at < en for (st, en) in macro_spans)
+            cls = (fault, kw, inmacro)
+            if percls.get(cls, 0) >= cap:
+                continue
+            percls[cls] = percls.get(cls, 0) + 1
             # a fault inside a macro body may be reported at the PASTE lines that bring it in
             if any(st <= at < en for (st, en) in macro_spans):
                 sites = sites + [(ls2 + (len(data) - len(d) if ls2 > at else 0), e2 + (len(data) - len(d) if ls2 > at else 0)) for (ls2, e2) in paste_lines]
